@@ -13,13 +13,17 @@ import (
 	"strconv"
 	"strings"
 	"sync"
+	"sync/atomic"
 
 	http "github.com/bfenetworks/bfe/bfe_http"
 )
 
+// scriptedPanics counts the handler panics the scripts asked for ("panic" step).
+var scriptedPanics int64
+
 // hStep is one step of a handler script.
 type hStep struct {
-	Op    string `json:"op"`              // read | readall | gate | write | status | closebody | flush
+	Op    string `json:"op"`              // read | readall | gate | write | status | closebody | flush | panic
 	N     int    `json:"n,omitempty"`     // read: bytes; write: bytes; status: code; gate: gate number
 	Chunk int    `json:"chunk,omitempty"` // read buffer / write chunk size
 	Flush bool   `json:"flush,omitempty"` // write: Flush after every chunk
@@ -48,6 +52,8 @@ type hRec struct {
 	writeErr string
 	corrupt  bool
 	done     bool
+	// Body.Close() has returned (body-close cases, see c40close.go)
+	bodyClosed bool
 }
 
 // caseServer is the handler side of one connection.
@@ -422,6 +428,19 @@ func (cs *caseServer) ServeHTTP(w http.ResponseWriter, r *http.Request) {
 			}
 		case "closebody":
 			r.Body.Close()
+			cs.mu.Lock()
+			rec.bodyClosed = true
+			wake := cs.wake
+			cs.mu.Unlock()
+			if wake != nil {
+				wake()
+			}
+		case "panic":
+			// a handler that aborts: bfe_spdy recovers it (SpdyPanicStream) and
+			// drops the stream; counted so that the epilogue can tell scripted
+			// panics from panics inside bfe_spdy
+			atomic.AddInt64(&scriptedPanics, 1)
+			panic("harness: scripted handler panic")
 		default:
 			panic(fmt.Sprintf("harness: unknown handler step %q", st.Op))
 		}
